@@ -151,6 +151,15 @@ def discharge(F, site):
                         return 'D1', 'guarded by %s <= %s' % ('b', 'a')
                     if f[0] in ('Ge', 'Gt') and strip(f[1]) == strip(a) and strip(f[2]) == strip(bb):
                         return 'D1', 'guarded by a >= b'
+                    # a - k with a constant k, guarded by a > k-1 / a >= k / (k = 1) a != 0
+                    if strip(bb)[0] == 'int' and strip(f[1]) == strip(a) and strip(f[2])[0] == 'int':
+                        k, n = strip(bb)[1], strip(f[2])[1]
+                        if (f[0] == 'Gt' and n >= k - 1) or (f[0] == 'Ge' and n >= k) or (f[0] == 'Ne' and n == 0 and k == 1):
+                            return 'D1', 'guarded by a %s %d' % ({'Gt': '>', 'Ge': '>=', 'Ne': '!='}[f[0]], n)
+                    if strip(bb)[0] == 'int' and strip(f[2]) == strip(a) and strip(f[1])[0] == 'int':
+                        k, n = strip(bb)[1], strip(f[1])[1]
+                        if (f[0] == 'Lt' and n >= k - 1) or (f[0] == 'Le' and n >= k):
+                            return 'D1', 'guarded by %d %s a' % (n, {'Lt': '<', 'Le': '<='}[f[0]])
             return None
         if kind == 'BoundsCheck' and c[0] == 'binop' and c[1] == 'Lt':
             facts = facts_at(fn, b)
